@@ -171,6 +171,16 @@ theorem C09_copy_into_other_buffer_stable (u : RG.Univ) (hu : RG.UWF u) (src d :
   obtain ⟨_, _, _, _, news, i5, i6⟩ := RG.xcopy_spec hu hs fuel d a c d' o hd hobj h hcap
   exact ⟨news, i5, i6⟩
 
+/-- **the copy of an acyclic source always ends** - the `none` of `xcopy` hides nothing but cycles: if every chain of references
+from the node has fewer than `n` links (`Acyc`), fuel `n` suffices, for ANY destination whose allocator is in a consistent state
+with a usable grow step (the allocator never gives up: `C12_total`).  So the hypothesis `xcopy … = some …` of
+`C09_copy_into_other_buffer` is met by every finite tree or DAG of nodes. -/
+theorem C09_acyclic_source_is_copied (u : RG.Univ) (src d : RG.St) (n a c : Nat)
+    (hd : Alloc.Inv d.b.a (RG.regions d)) (hg : d.b.a.growStep ≠ some 0) (hac : RG.Acyc u src n a c) :
+    ∃ d' o, RG.xcopy u src n d a c = some (d', o) := by
+  obtain ⟨d', o, h, _⟩ := RG.xcopy_total u src n d a c ⟨hd, hg⟩ hac
+  exact ⟨d', o, h⟩
+
 /-! non-vacuity: a node whose two references denote ONE node is copied into an empty buffer of capacity 8 (which grows): the copy
 at 0 refers to TWO new nodes (24 and 40), both reading 5, 6; the hypotheses hold (reachable states, `C08_ref_history`) -/
 namespace RGX
@@ -184,6 +194,27 @@ def exD : St := (exRes.getD (exDst, 99)).1
 example : exRes.map (·.2) = some 0 ∧ exD.b.a.capacity < 2 ^ 62 ∧
     deref exD.b.mem 8 = some 24 ∧ deref exD.b.mem 16 = some 40 ∧ deref exSrc.b.mem 24 = some 0 ∧ deref exSrc.b.mem 32 = some 0 ∧
     fromLE (readAt exD.b.mem 24 8) = 5 ∧ fromLE (readAt exD.b.mem 48 8) = 6 ∧ exD.live.length = 3 := by decide +kernel
+/-- the source of the example is acyclic: two links never occur -/
+example : Acyc exU exSrc 2 16 1 := by
+  refine ⟨[.scal, .ref 0, .ref 0], rfl, fun k fk hk => ?_⟩
+  have leaf : Acyc exU exSrc 1 0 0 := ⟨[.scal, .scal], rfl, fun k fk hk => by
+    match k, hk with
+    | 0, hk => cases hk; trivial
+    | 1, hk => cases hk; trivial
+    | k + 2, hk => simp at hk⟩
+  match k, hk with
+  | 0, hk => cases hk; trivial
+  | 1, hk =>
+    cases hk
+    intro t ht
+    have h : deref exSrc.b.mem (16 + foff [.scal, .ref 0, .ref 0] 1) = some 0 := by decide +kernel
+    rw [h] at ht; cases ht; exact leaf
+  | 2, hk =>
+    cases hk
+    intro t ht
+    have h : deref exSrc.b.mem (16 + foff [.scal, .ref 0, .ref 0] 2) = some 0 := by decide +kernel
+    rw [h] at ht; cases ht; exact leaf
+  | k + 3, hk => simp at hk
 /-- a cycle never ends: with fuel 50 the result is still `none` (the library: RecursionError) -/
 example : (xcopy [[.ref 0]] ([Op.new 0 [], .bindObj 0 0 0].foldl (step [[.ref 0]]) (initSt 64 (2 ^ 3) none)) 50 exDst 0 0).isNone
     = true := by decide +kernel
